@@ -811,6 +811,11 @@ func main() {
 	if nViol > 0 {
 		os.Exit(1)
 	}
+	if states == 0 && len(insts) > 0 {
+		// nothing was explored at all (every harness was left out or failed to start): that is not a pass
+		fmt.Printf("INCONCLUSIVE: property=%s no harness instance could be explored\n", prop)
+		os.Exit(2)
+	}
 }
 
 func firstLine(s string) string {
